@@ -1,10 +1,14 @@
 ------------------------------- MODULE Control -------------------------------
 (* The control plane around FBDNSDB.Reload (dnsserver/db.go), an extension of the Serve model towards shutdown:
 
-     producers   PeriodicDBReload, the DB watcher, the control-directory watcher: a loop
-                   select { case <-done: return ; case <-tick: ReloadChan <- signal }
-     consumer    the goroutine started by NewFBDNSDB:  for s := range ReloadChan { Reload(s) }   (Reload takes reloadMu)
-     closer      FBDNSDB.Close: reloadMu.Lock(); close(done); close(ReloadChan); dnsdb.Destroy(); Unlock
+     producers   PeriodicDBReload, the DB watcher, the control-directory watcher, Server.ReloadDB: a loop
+                   select { case <-done: return ; case <-tick: SignalReload(signal) }
+                   SignalReload:  select { case ReloadChan <- signal: ; case <-done: }          (since fix F21)
+     consumer    the goroutine started by NewFBDNSDB:
+                   for { select { case <-done: return ; case s := <-ReloadChan: Reload(s) } }   (Reload takes reloadMu)
+     closer      FBDNSDB.Close: reloadMu.Lock(); close(done); dnsdb.Destroy(); Unlock           (ReloadChan stays open)
+   Before fix F21 (SelectSend = FALSE): the send was a plain statement, the consumer ranged over ReloadChan and Close
+   closed it after done.
 
    ReloadChan is unbuffered: a send completes only in a rendezvous with the consumer's receive.
    Properties (part of C14 "... with shutdown ... do not crash", and of C06 for the database):
@@ -13,9 +17,10 @@
      NoReloadAfterDestroy    the consumer never runs Reload on the database that Close has destroyed
      Termination             after Close every process terminates
    ReloadChecksDone = TRUE: Reload, once it holds the lock, returns at once when done is closed (the code since fix F20).
-   SelectSend = FALSE is the code as it is: the tick case is chosen first and the send is a plain statement.
-   SelectSend = TRUE  would be the full repair: producers send inside a select that also watches done, Close does not
-   close ReloadChan, the consumer watches done.                                                                       *)
+   SelectSend = TRUE  is the code (fix F21): producers send inside a select that also watches done, Close does not
+   close ReloadChan, the consumer watches done.
+   SelectSend = FALSE is the code before F21: the tick case is chosen first and the send is a plain statement; TLC finds
+   the send on the closed channel there (kept as the regression variant: the model must tell the two apart).                                                                       *)
 EXTENDS Integers, FiniteSets, TLC
 
 CONSTANTS Producers, SelectSend, ReloadChecksDone, MaxTicks
